@@ -678,6 +678,18 @@ def cases(tier, seed):
                     out.append(cc)
     except ImportError:
         pass
+    # ---- norm() of an unevaluated element-wise expression: the fused unrolled kernel, every unroll stage (cases built by units.c16)
+    try:
+        c16 = importlib.import_module('units.c16')
+        for isa in il:
+            for ty in (DBL, FLT):
+                V = vec_elems(isa, ty)
+                for n in sorted({7 * V + 1} | ({15 * V + 1} if isa == 'avx512' else set())):
+                    for cc in c16.norm_case(ty, (n,), Cfg(isa), 'expr'):
+                        cc.prop = 'C09'; cc.cid = 'C09/lazy-' + cc.cid.split('/', 1)[1]
+                        out.append(cc)
+    except ImportError:
+        pass
     # ---- bounded integer families (B01)
     IS = int_statements(thorough)
     il = isas(tier)
